@@ -720,7 +720,10 @@ impl<'tcx> Ex<'tcx> {
                     for (vi, v) in def.variants().iter_enumerated() {
                         let mut fs = Vec::new();
                         for (fi, fd) in v.fields.iter_enumerated() {
-                            let fty = tcx.type_of(fd.did).instantiate_identity().skip_norm_wip();
+                            let fty_raw = tcx.type_of(fd.did).instantiate_identity();
+                            // (array lengths written as named constants are evaluated)
+                            let fenv = ty::TypingEnv::post_analysis(tcx, did);
+                            let fty = tcx.try_normalize_erasing_regions(fenv, fty_raw).unwrap_or(fty_raw.skip_norm_wip());
                             fs.push(obj(&[
                                 ("i", fi.as_usize().to_string()),
                                 ("name", esc(&fd.name.to_string())),
